@@ -2,6 +2,7 @@ import TensorModel.Run
 import TensorModel.Proofs.ColMajor
 import TensorModel.Props.C01
 import TensorModel.Props.C05
+import TensorModel.Proofs.CoreEq
 /-!
   C16 — a column-major tensor is the array with the same logical contents.
   Property theorems only (helper lemmas: `Proofs/ColMajor.lean`, `Proofs/Ltoi.lean`, `Proofs/Iter.lean`,
@@ -39,6 +40,19 @@ theorem colMajor_rejects (shape : Shape) (c : List Int) (hv : isVector shape = f
   unfold calcStridesCol
   simp only [hs, hv, Bool.false_eq_true, if_false]
   exact prefixProds_length shape 1
+
+/-- the same about the source as translated on this run: `CalcStridesColMajor` (shape.go) followed by
+    `Ltoi` (utils.go) addresses the column-major rank of the coordinate -/
+theorem colMajor_at_source (shape : Shape) (c : List Int) (hpos : ∀ d ∈ shape, 0 ≤ d)
+    (hv : isVector shape = false) (hs : isScalarEquiv shape = false) (hc : inBox shape c = true) :
+    (do let st ← Gen.Shape_CalcStridesColMajor shape; pure (Gen.clsE (Gen.Ltoi shape st c))) = .ok (.val (colRank shape c)) :=
+  C01.source_colMajor_addressing shape c hpos hv hs hc
+
+/-- `CalcStridesColMajor` (source) = the model's `calcStridesCol`, every rank (incl. the short stride
+    vectors of vectors and scalar-equivalent shapes, finding F24) -/
+theorem calcStridesCol_source (shape : Shape) (hpos : ∀ d ∈ shape, 0 ≤ d) :
+    Gen.Shape_CalcStridesColMajor shape = .ok (calcStridesCol shape) :=
+  Gen.Shape_CalcStridesColMajor_eq shape hpos
 
 /-! ## iteration -/
 
